@@ -158,11 +158,13 @@ struct Obs {
 
 std::atomic<long> g_opsDone{0};
 std::atomic<int> g_threadsDone{0};
-Mon* g_mon = nullptr;
+std::atomic<Mon*> g_mon{nullptr};
 std::string dumpState() {
   J j;
   j.kv("opsDone", g_opsDone.load()).kv("threadsDone", g_threadsDone.load());
-  if (g_mon) j.kv("writersInside", g_mon->writers.load()).kv("readersInside", g_mon->readers.load());
+  // (the monitor object outlives the armed watchdog: it is unpublished before the case ends)
+  Mon* m = g_mon.load(std::memory_order_relaxed);
+  if (m) j.kv("writersInside", m->writers.load()).kv("readersInside", m->readers.load());
   return j.str();
 }
 
